@@ -355,9 +355,10 @@ type vu8Oblig struct {
 		Wire  string `json:"wire"`  // "ok" | "truncated"
 		Prior string `json:"prior"` // what this process decoded for the same type just before: "none" | "overdeep" | "repaired"
 	} `json:"class"`
-	Wrap bool `json:"wrap"` // the failures above the one under test have valid non-empty messages
-	Deep bool `json:"deep"` // kind path: the failure message sits at the end of a cause chain of exactly the supported depth
-	Seq  int  `json:"seq"`  // which kind of invalid content
+	Paths [][]string `json:"paths"` // kind "all": every failure path of the root type realised in ONE message
+	Wrap  bool       `json:"wrap"`  // the failures above the one under test have valid non-empty messages
+	Deep  bool       `json:"deep"`  // kind path: the failure message sits at the end of a cause chain of exactly the supported depth
+	Seq   int        `json:"seq"`   // which kind of invalid content
 }
 
 func vu8Codecs() (encoding.CodecV2, encoding.CodecV2) {
@@ -426,7 +427,17 @@ func TestVerifUtf8Obligations(t *testing.T) {
 			nbad := 1
 			expectRepairable := true
 			var reference, reference2 proto.Message // one U+FFFD per run / per byte
-			if ob.Kind == "valid" {
+			if ob.Kind == "all" {
+				reference, reference2 = vu8New(md), vu8New(md)
+				for _, p := range ob.Paths {
+					if err := vu8Build(msg.ProtoReflect(), p, vu8Placeholder); err != nil {
+						rec["err"] = "build: " + err.Error()
+						return
+					}
+					_ = vu8Build(reference.ProtoReflect(), p, vu8Repaired(q, false))
+					_ = vu8Build(reference2.ProtoReflect(), p, vu8Repaired(q, true))
+				}
+			} else if ob.Kind == "valid" {
 				// valid text (non-ASCII) at the failure message, valid wrappers above it: nothing to repair
 				path := ob.Path
 				if ob.Deep {
@@ -553,7 +564,7 @@ func TestVerifUtf8Obligations(t *testing.T) {
 				rec["err"] = "build: marshal: " + err.Error()
 				return
 			}
-			if ob.Kind != "valid" && (ob.Kind == "path" || ob.Class.Fail > 0 || ob.Class.Other) {
+			if ob.Kind != "valid" && (ob.Kind == "path" || ob.Kind == "all" || ob.Class.Fail > 0 || ob.Class.Other) {
 				n := bytes.Count(wire, []byte("@#@#"))
 				if n < 1 {
 					rec["err"] = "build: placeholder not found"
